@@ -355,7 +355,8 @@ def gen_reduce(g):
     rng = g.rng
     op = rng.choice(REDUCE_INT * 2 + REDUCE_FLOAT)
     U = g.pick_axes(rng.randint(1, 4), maxprod=300)
-    mark_some(rng, U, 1, 2)
+    if rng.random() >= 0.1:          # 10%: a reduction over no axis at all (the elementary operation still has to be applied)
+        mark_some(rng, U, 1, 2)
     ins = [g.arrange(g.perm(U))]
     outs = [g.arrange(g.perm([a for a in U if not a.marked]))]
     sh = shape_of(ins[0])
